@@ -8,7 +8,8 @@
 From Coq Require Import List NArith Arith Bool Lia.
 From GmsmVerif Require Import Lib.Outcome HS.HSTerms HS.HSModel HS.HSParsers HS.HSParserProofs HS.HSProofs
      HS.HSClientFlight HS.HSTlsClientFlight HS.HSServerFlight HS.HSRecords HS.HSTablesTie Gen.HSTables
-     HS.HSMsgParsers HS.HSMsgParserProofs HS.HSFlightTie HS.HSMsgMarshal HS.HSMsgMarshalProofs.
+     HS.HSMsgParsers HS.HSMsgParserProofs HS.HSFlightTie HS.HSMsgMarshal HS.HSMsgMarshalProofs
+     Gen.HSSigTables HS.HSSigAlg HS.HSSigAlgProofs HS.HSKxParsers HS.HSKxParserProofs.
 Import ListNotations.
 Local Open Scope N_scope.
 
@@ -304,6 +305,21 @@ Proof.
 Qed.
 Print Assumptions C15_transcript_read_back.
 
+(* ---- 4d. the ServerKeyExchange of the standard-TLS ECDHE suites ------------------------------------------------- *)
+(* ecdheKeyAgreement.processServerKeyExchange (key_agreement.go) byte by byte up to the signature check
+   (HS/HSKxParsers.v): curve type and id, the public value, from TLS 1.2 on the SignatureAndHashAlgorithm, the scheme
+   negotiation of auth.go (HS/HSSigAlg.v), the signature length.  For every version, key type, ServerKeyExchange body of any
+   length and content, and whatever elliptic.Unmarshal says about the point: never Panic or Hang - the client's own
+   signature_algorithms list being the package's (any list of schemes lookupTLSHash knows). *)
+Theorem C15_ecdhe_server_key_exchange_total : forall vers isRSA pk helloAlgs point_ok key,
+  (forall a, In a helloAlgs -> In a gen_supportedSignatureAlgorithms) ->
+  no_crash (ecdhe_processServerKeyExchange vers isRSA pk helloAlgs point_ok key).
+Proof.
+  intros vers isRSA pk helloAlgs point_ok key H. apply ecdhe_processServerKeyExchange_total.
+  intros a Ha. apply package_list_known. apply H. exact Ha.
+Qed.
+Print Assumptions C15_ecdhe_server_key_exchange_total.
+
 (* ---- 5. the tables the models use are the ones in the source now -------------------------------------------- *)
 (* Gen/HSTables.v is regenerated from gmtls/cipher_suites.go, gm_support.go, common.go on every run: both suite tables
    row by row (id, key agreement, flag bits), the default suite lists, version numbers, minVersion / maxVersion,
@@ -538,3 +554,14 @@ Example C15_marshal_examples :
      (mkCHF 257 (repeat 7 32) [] [47] [0] false [] false [] [] false [9] [] false [] [] false)) with Ok m => m | _ => ex_chv end) = [] /\
   certificate_unmarshal (certificate_marshal [[1]; []]) = Err 1.
 Proof. vm_compute. repeat split; reflexivity. Qed.
+
+(* the ECDHE ServerKeyExchange parser: X25519 value, scheme 0x0401, a 1-byte signature; the same cut right after the
+   scheme (2 bytes after the parameters) and one byte later: an error, not a panic *)
+Definition ex_skx (tail : list N) : list N := [3; 0; 29; 32] ++ repeat 9 32 ++ tail.
+Example C15_ecdhe_skx_examples :
+  (exists r, ecdhe_processServerKeyExchange 771 true PK_RSA gen_supportedSignatureAlgorithms (fun _ => true) (ex_skx [4; 1; 0; 1; 7]) = Ok r
+             /\ ek_sig r = [7] /\ ek_hash r = 5) /\
+  ecdhe_processServerKeyExchange 771 true PK_RSA gen_supportedSignatureAlgorithms (fun _ => true) (ex_skx [4; 1]) = Err 1 /\
+  ecdhe_processServerKeyExchange 771 true PK_RSA gen_supportedSignatureAlgorithms (fun _ => true) (ex_skx [4; 1; 0]) = Err 1 /\
+  ecdhe_processServerKeyExchange 770 true PK_RSA gen_supportedSignatureAlgorithms (fun _ => true) (ex_skx [0; 1; 7]) <> Panic.
+Proof. split; [eexists; vm_compute; repeat split; reflexivity|]. vm_compute. repeat split; try reflexivity; discriminate. Qed.
